@@ -14,10 +14,18 @@
       → {"ok":true, "same":null,  "refused":reason, ..}
       accepted ⇒ for all n and all initial stores that agree on "vars": the two runs have the same joint law over
       vars ++ types_used (un-merged runs, `checkSameStep_sound`; moments: `checkSameStep_moments`).
+      Every answer carries "validator": "V3" | "V3C".  "V3C" (`Polar/ValidateSimCont.lean`, `checkSameStepC`; soundness
+      `Polar.V3C.checkSameStepC_sound` / `checkSameStepC_moments` in `PolarProofs/ValidateSimCont.lean`) is used when a
+      program is outside the discrete fragment only because of continuous draws (Normal, Uniform, Laplace,
+      Exponential, Gamma, Beta): the projections then also carry the atom table of the step — the observed values
+      must be the same polynomials over the "vars"-symbols and the atoms `@0, @1, …` of the step, and these atoms the
+      same draws index by index; "projection" in "why" shows the polynomials and the extra field "atoms" of "why" the atom
+      table `[[family, [params]], …]` of the offending key.  All other fields keep their meaning.
 -/
 import Polar.Ops
 import Polar.OpsValidate
 import Polar.ValidateSim
+import Polar.ValidateSimCont
 
 namespace Polar
 open Lean
@@ -33,17 +41,25 @@ def opSameStep (j : Json) : D Json := do
     | _ => false
   let Γ := if allTypes then Γall else commonInitTypes Γall P P'
   let cap := decCap j
+  -- V3C only when a program leaves the discrete fragment and both are inside the fragment with continuous draws
+  let useC := !(FragmentI P && FragmentI P') && (FragmentIC P && FragmentIC P')
   let common : List (String × Json) :=
     [("states", Json.num (card Γ)), ("types_used", Json.arr (Γ.map (fun e => Json.str e.1)).toArray),
-     ("observed", Json.arr ((obsVars Γ V).map Json.str).toArray)]
-  match sameStepCex cap Γ V P P' with
+     ("observed", Json.arr ((obsVars Γ V).map Json.str).toArray),
+     ("validator", Json.str (if useC then "V3C" else "V3"))]
+  let whyJson (c : SimCex) (extra : List (String × Json)) : Json :=
+    Json.mkObj ([("stage", Json.str c.stage), ("kind", Json.str c.kind), ("assign", vJsonAssign c.assign),
+                 ("projection", Json.arr (c.projection.map vJsonPoly).toArray),
+                 ("weight_p", jsonRat c.weightP), ("weight_q", jsonRat c.weightQ)] ++ extra)
+  let atomsJson (as : List Atom) : Json :=
+    Json.arr (as.map (fun a => Json.arr #[Json.str a.family, Json.arr (a.params.map jsonRat).toArray])).toArray
+  let res : M (Option (SimCex × List (String × Json))) :=
+    if useC then (sameStepCexC cap Γ V P P').map (fun o => o.map (fun c => (c.cex, [("atoms", atomsJson c.atoms)])))
+    else (sameStepCex cap Γ V P P').map (fun o => o.map (fun c => (c, [])))
+  match res with
   | .error e => pure (okJson ([("same", Json.null), ("refused", Json.str e)] ++ common))
   | .ok none => pure (okJson ([("same", Json.bool true), ("why", Json.null)] ++ common))
-  | .ok (some c) =>
-    pure (okJson ([("same", Json.bool false),
-      ("why", Json.mkObj [("stage", Json.str c.stage), ("kind", Json.str c.kind), ("assign", vJsonAssign c.assign),
-                           ("projection", Json.arr (c.projection.map vJsonPoly).toArray),
-                           ("weight_p", jsonRat c.weightP), ("weight_q", jsonRat c.weightQ)])] ++ common))
+  | .ok (some (c, extra)) => pure (okJson ([("same", Json.bool false), ("why", whyJson c extra)] ++ common))
 
 end Validate
 
